@@ -65,7 +65,7 @@ func (f *DescribeFlavor) Call(s *slip.Scope, args slip.List, depth int) (result 
 		}
 	}
 	ansi := s.Get("*print-ansi*") != nil
-	right := int(s.Get("*print-right-margin*").(slip.Fixnum))
+	right := slip.RightMarginValue(s.Get("*print-right-margin*"), slip.DefaultRightMargin)
 	_, _ = w.Write(cf.Describe(nil, 0, right, ansi))
 
 	return slip.Novalue
